@@ -3,6 +3,7 @@ package vt
 
 import (
 	"bufio"
+	"bytes"
 	"encoding/json"
 	"os"
 	"strconv"
@@ -39,6 +40,8 @@ func (w *Writer) Emit(ev map[string]any) {
 	if err != nil {
 		panic(err)
 	}
+	// TLC's JSON reader has no null: a nil slice is an empty sequence
+	b = bytes.ReplaceAll(b, []byte(":null"), []byte(":[]"))
 	w.w.Write(b)
 	w.w.WriteByte('\n')
 }
